@@ -134,6 +134,13 @@ fn boundary_literals() -> &'static Vec<String> {
     static CELL: OnceLock<Vec<String>> = OnceLock::new();
     CELL.get_or_init(|| {
         let mut v: Vec<String> = Vec::new();
+        // well-known constants typed to every precision (a literal recogniser that maps "3.14159265358979" to pi is as
+        // wrong as one that misrounds it): every prefix of 40-digit expansions
+        for (ip, frac) in [("3", "1415926535897932384626433832795028841971"), ("2", "7182818284590452353602874713526624977572"), ("1", "4142135623730950488016887242096980785696"), ("0", "6931471805599453094172321214581765680755"), ("1", "6180339887498948482045868343656381177203"), ("0", "5772156649015328606065120900824024310421"), ("0", "3333333333333333333333333333333333333333"), ("299792", "4580000000000000000000000000000000000000"), ("6", "0221407600000000000000000000000000000000"), ("57", "2957795130823208767981548141051703324054"), ("0", "0174532925199432957692369076848861271344")] {
+            for n in 1..=frac.len() {
+                v.push(format!("{}.{}", ip, &frac[..n]));
+            }
+        }
         for d in 9007199254740990u64..=9007199254740998 {
             v.push(format!("{}", d));
             v.push(format!("{}.0", d));
